@@ -136,6 +136,8 @@ pub fn create_raw_dict_from_source<R: io::Read, W: io::Write>(
         source
             .read_to_end(&mut buf)
             .expect("Could not read from source");
+        // The size is only an estimate, the source may hold more than the dictionary may
+        buf.truncate(dict_size);
         output.write_all(&buf).expect("Could not write to output");
         return;
     }
